@@ -212,6 +212,7 @@ def run(ctx: Ctx):
     run_variables(ctx)
     run_datasets(ctx)
     run_fields_and_pdf(ctx)
+    run_multi_field(ctx)
 
 
 def run_fields_and_pdf(ctx: Ctx):
@@ -320,3 +321,50 @@ def run_fields_and_pdf(ctx: Ctx):
                                 f'decodes to {dec.tolist()} instead of {want}', case)
             except Exception as e:
                 ctx.violate('C16:sample_inputs-raises', f'constants/nominal: {type(e).__name__}: {e}', case)
+
+
+def run_multi_field(ctx: Ctx):
+    """a quantity made of several fields (fields=[...]) compressed together: the dict of field values is keyed by field name, so its key order is
+    irrelevant, and reconstruct(compress(v)) gives every field back under its own name (on the compression grid and on a coarser one)"""
+    from amisc import Variable
+    from amisc.compression import SVD
+    rng = ctx.rng
+    for n in range(ctx.pick(4, 30)):
+        npts = rng.choice([20, 30, 45]); nf = rng.randint(2, 3)
+        grid = np.linspace(-1.0, 1.0, npts)
+        names = ['ux', 'uy', 'uz'][:nf]
+        shapes = [[np.sin(2 * grid), grid], [np.cos(grid), grid ** 2], [np.exp(-grid ** 2), grid ** 3]][:nf]
+        rs = np.random.RandomState(ctx.seed * 7 + n)
+
+        def make(nsamp, x=None, _shapes=shapes):
+            out = []
+            for k_, (m0, m1) in enumerate(_shapes):
+                a = rs.uniform(0.5 + k_, 1.5 + k_, (nsamp, 1)); b = rs.uniform(-1, 1, (nsamp, 1))
+                if x is None:
+                    out.append(a * m0 + b * m1)
+                else:
+                    f0 = [np.sin(2 * x), np.cos(x), np.exp(-x ** 2)][k_]; f1 = [x, x ** 2, x ** 3][k_]
+                    out.append(a * f0 + b * f1)
+            return out
+        train = make(60)
+        dm = np.concatenate([f[..., None] for f in train], axis=-1).reshape((60, -1)).T
+        v = Variable('vel', compression=SVD(rank=2 * nf, coords=grid, fields=list(names), data_matrix=dm))
+        vals = make(4)
+        perm = list(range(nf)); rng.shuffle(perm)
+        if perm == sorted(perm):
+            perm = perm[::-1]
+        case = {'multi_field': n, 'fields': names, 'grid_points': npts, 'key_order': [names[i] for i in perm]}
+        ctx.case(case, nontrivial=True, kind=f'compression:{nf}-fields')
+        try:
+            lat_a = np.asarray(v.compress({names[i]: vals[i].copy() for i in range(nf)})['latent'])
+            lat_b = np.asarray(v.compress({names[i]: vals[i].copy() for i in perm})['latent'])
+            rec = v.reconstruct({'latent': lat_b})
+        except Exception as e:
+            ctx.violate('C16:dataset-conversion-raises', f'multi-field compression: {type(e).__name__}: {e}', case); continue
+        if not np.allclose(lat_a, lat_b, rtol=1e-9, atol=1e-9):
+            ctx.violate('C16:compression-depends-on-key-order', f'latent coefficients of the same field values differ by {float(np.max(np.abs(lat_a - lat_b))):.3e} between the key orders '
+                        f'{names} and {[names[i] for i in perm]}', case); continue
+        for i in range(nf):
+            err = float(np.max(np.abs(np.asarray(rec[names[i]]) - vals[i])))
+            if err > 1e-8 * (1 + float(np.max(np.abs(vals[i])))):
+                ctx.violate('C16:latent-roundtrip', f'reconstruct(compress(v)) returns field {names[i]} off by {err:.3e}', case); break
